@@ -20,7 +20,7 @@ ASSUMPTIONS = [
     "segment mean = the segment's log2 column; breakpoint position = cumulative probes of the first segment (no bin is filtered: weights > 0, no null bins; the default outlier filter may drop a bin, which moves the count by at most that many bins and is inside the 5-bin tolerance)",
     "hmm and hmm-tumor are outside the claim and not driven",
 ]
-BUDGET_S = {"quick": 240, "thorough": 1500}
+BUDGET_S = {"quick": 600, "thorough": 2400}
 
 MON = "segmentation.do_segmentation[truth]"
 
